@@ -77,7 +77,7 @@ def _run_pool(prop, todo, jobs):
     """one forked process per case, at most `jobs` at a time; a case that exceeds its wall-clock limit is killed and reported as UNDECIDED
     (never a violation, never a proof) so that a check cannot hang"""
     ctx = mp.get_context("fork")
-    scale = float(os.environ.get("VERIF_TIMEOUT_SCALE", "1"))
+    scale = float(os.environ.get("VERIF_TIMEOUT_SCALE", "1")) * (6 if os.environ.get("VERIF_TIER") == "thorough" else 1)      # thorough cases are bigger geometries
     pending = list(todo); running = {}; outs = []
     while pending or running:
         while pending and len(running) < jobs:
